@@ -171,3 +171,60 @@ class Multiply:
       (P11, "implies(g_fin, lemma('log_of_mul_inf', self.a, self.b, self.mod, self.g[0], self.g[1], self.n, g_px, g_py, g_k))"),
       (P11, "implies(result[0] is not None, " + ax("elt_finite", "result[0]", "result[1]") + ")")]
   props = ["C02", "C06", "C10", "C11", "C18"]
+
+
+CURVE_REQ = ["self.mod >= 3", "self.n >= 2", "self.h >= 1"]
+_J2A = ("forall(k, 0, len(p_list), implies(wfj(self, p_list[k]) and jonp(self, p_list[k]), "
+        "onp(self, result[k]) and eltp(self, result[k]) == jeltp(self, p_list[k])))")
+
+
+@contract(f"{E}::EcCurve.BatchJacobianToAffine")
+class BatchJacobianToAffine:
+  """Proved: one affine point per Jacobian triple, infinity exactly for the triples with Z == 0 (BatchInverse's shape
+  contract).  Assumed (bridge): a finite triple converts to the point it represents - the formulas x = X w^2, y = Y w^3
+  with w the shared-inversion inverse of Z are JacobianToAffine's, proved in the ring pass there; the inverses come from
+  BatchInverse (proved: Montgomery's trick yields inverses)."""
+  params = {"p_list": "list[jpoint]"}
+  self_fields = F
+  returns = "list[point]"
+  requires = CURVE_REQ
+  raises = {"ArithmeticError": None}
+  ensures = [("C10,C11", "len(result) == len(p_list)"),
+             ("C10,C11", "forall(k, 0, len(p_list), wf_point(result[k]) and (result[k][0] is None) == (p_list[k][2] == 0))")]
+  caller_ensures = ["len(result) == len(p_list)",
+                    "forall(k, 0, len(p_list), wf_point(result[k]) and (result[k][0] is None) == (p_list[k][2] == 0))", _J2A]
+  caller_assumed = [_J2A]
+  loops = {0: dict(invariant=["len(res) == len(p_list)", "len(inverses) == len(p_list)",
+                              "forall(k, 0, len(p_list), (inverses[k] is None) == (p_list[k][2] == 0))",
+                              "forall(k, 0, i, wf_point(res[k]) and (res[k][0] is None) == (p_list[k][2] == 0))"],
+                   types={"res": "list[point]"})}
+  var_types = {"res": "list[point]"}
+  props = ["C10", "C11"]
+
+
+_SEQ = ("implies(onp(self, base), forall(k, 0, len(result), onp(self, result[k]) and "
+        "eltp(self, result[k]) == gmul(self, k, eltp(self, base))))")
+
+
+@contract(f"{E}::EcCurve.PointSequence")
+class PointSequence:
+  """PROVED in the group view, for every n and every on-curve base: entry k is k * base (repeated Jacobian addition of the
+  base, converted by BatchJacobianToAffine) - under the bridge clauses of AddJacobian and BatchJacobianToAffine."""
+  frame_props = ["C10", "C11"]
+  params = {"base": "point", "n": "int"}
+  self_fields = F
+  returns = "list[point]"
+  requires = CURVE_REQ + ["wf_point(base)"]
+  raises = {"ArithmeticError": None}
+  ensures = [("C10,C11", "len(result) == max(n, 0)"), ("C10,C11", "forall(k, 0, len(result), wf_point(result[k]))"),
+             ("C10,C11", _SEQ)]
+  on_call = {A2J: ["implies(base[0] is not None, " + ax("jelt_affine", "ret[0]", "ret[1]") + " and " +
+                   ax("jon_affine", "ret[0]", "ret[1]") + ")", ax("gmul_0", "eltp(self, base)")]}
+  loops = {0: dict(invariant=["len(res) == n", "1 <= i",
+                              ("C10,C11", "implies(onp(self, base), forall(k, 0, i, wfj(self, res[k]) and jonp(self, res[k]) "
+                                          "and jeltp(self, res[k]) == gmul(self, k, eltp(self, base))))")],
+                   types={"res": "list[jpoint]"},
+                   # at the end of the body `i` is already the next index: this iteration wrote res[i - 1]
+                   body_end=[("C10,C11", ax("gmul_succ", "i - 2", "eltp(self, base)"))])}
+  var_types = {"res": "list[jpoint]"}
+  props = ["C10", "C11"]
